@@ -49,3 +49,58 @@ package config
 //@   loop#0 invariant forall c int :: 0 <= c && c <= rangeindex && hasCol(table, possible[c]) ==> (exists q int witness len(uidx) - 1 :: 0 <= q && q < len(uidx) && uidx[q] == possible[c])
 //@   loop#0 invariant forall q int :: 0 <= q && q < len(uidx) ==> (exists c int witness rangeindex :: 0 <= c && c <= rangeindex && uidx[q] == possible[c] && hasCol(table, possible[c]))
 //@   loop#1 invariant forall j0 int :: 0 <= j0 && j0 <= rangeindex ==> (*table).Columns[j0].Name != possible[i]
+
+// C16: AddRequiredFields adds the identity columns an integration's shape
+// needs, each with a block-data entry of the same name so that the row
+// builder fills it, and keeps what the user declared.
+//@ spec opaque colAt(ig *Integration, k int) wpg.Column = (*ig).Table.Columns[k]
+//@ spec opaque bdAt(ig *Integration, k int) dig.BlockData = (*ig).Block[k]
+//@ spec igHasCol(ig *Integration, name string) bool = exists j int :: 0 <= j && j < len((*ig).Table.Columns) && colAt(ig, j).Name == name
+//@ spec igHasBD(ig *Integration, name string) bool = exists j int :: 0 <= j && j < len((*ig).Block) && bdAt(ig, j).Name == name
+
+//@ func (*Integration).AddRequiredFields$1 props=C16
+//@   requires ig != nil
+//@   ensures [found] result ==> (exists j int witness rangeindex :: 0 <= j && j < len((*ig).Block) && (*ig).Block[j].Name == name)
+//@   ensures [absent] !result ==> (forall j int :: 0 <= j && j < len((*ig).Block) ==> (*ig).Block[j].Name != name)
+//@   loop#0 invariant forall j int :: 0 <= j && j <= rangeindex ==> (*ig).Block[j].Name != name
+//@ func (*Integration).AddRequiredFields$2 props=C16
+//@   requires ig != nil
+//@   ensures [found] result ==> (exists j int witness rangeindex :: 0 <= j && j < len((*ig).Table.Columns) && (*ig).Table.Columns[j].Name == name)
+//@   ensures [absent] !result ==> (forall j int :: 0 <= j && j < len((*ig).Table.Columns) ==> (*ig).Table.Columns[j].Name != name)
+//@   loop#0 invariant forall j int :: 0 <= j && j <= rangeindex ==> (*ig).Table.Columns[j].Name != name
+//@ func (*Integration).AddRequiredFields$3 props=C16
+//@   requires ig != nil
+//@   ensures [col] exists j int witness len((*ig).Table.Columns) - 1, _ :: 0 <= j && j < len((*ig).Table.Columns) && colAt(ig, j).Name == name
+//@   ensures [bd] exists j int witness len((*ig).Block) - 1, _ :: 0 <= j && j < len((*ig).Block) && bdAt(ig, j).Name == name
+//@   ensures [cols-kept] len((*ig).Table.Columns) >= old(len((*ig).Table.Columns)) && (forall k int :: 0 <= k && k < old(len((*ig).Table.Columns)) ==> colAt(ig, k) == old(colAt(ig, k)))
+//@   ensures [block-kept] len((*ig).Block) >= old(len((*ig).Block)) && (forall k int :: 0 <= k && k < old(len((*ig).Block)) ==> bdAt(ig, k) == old(bdAt(ig, k)))
+//@   ensures [added-fills-itself] len((*ig).Block) > old(len((*ig).Block)) ==> bdAt(ig, len((*ig).Block) - 1).Name == name && bdAt(ig, len((*ig).Block) - 1).Column == name
+//@   ensures [rest] (*ig).Event == old((*ig).Event) && (*ig).Name == old((*ig).Name) && (*ig).Table.Name == old((*ig).Table.Name) && (*ig).Table.Unique == old((*ig).Table.Unique) && (*ig).Notification == old((*ig).Notification)
+// Not proved here: trace_action_idx is added when a block field starts with
+// "trace_" (the loop reads the elements through the slice taken before the
+// loop while add may reallocate it; the frame needed for that is not
+// expressible in the contract language) - covered by the bounded stand-in.
+//@ func (*Integration).AddRequiredFields props=C16
+//@   requires ig != nil
+//@   ensures [identity] igHasCol(ig, "ig_name") && igHasCol(ig, "src_name") && igHasCol(ig, "block_num") && igHasCol(ig, "tx_idx")
+//@   ensures [identity-filled] igHasBD(ig, "ig_name") && igHasBD(ig, "src_name") && igHasBD(ig, "block_num") && igHasBD(ig, "tx_idx")
+//@   ensures [user-columns-kept] len((*ig).Table.Columns) >= old(len((*ig).Table.Columns)) && (forall k int :: 0 <= k && k < old(len((*ig).Table.Columns)) ==> colAt(ig, k) == old(colAt(ig, k)))
+//@   ensures [user-block-kept] len((*ig).Block) >= old(len((*ig).Block)) && (forall k int :: 0 <= k && k < old(len((*ig).Block)) ==> bdAt(ig, k) == old(bdAt(ig, k)))
+//@   ensures [log_idx] len(callresult(Selected, 0)) > 0 ==> igHasCol(ig, "log_idx") && igHasBD(ig, "log_idx")
+//@   ensures [abi_idx] (exists k0 int :: 0 <= k0 && k0 < len(callresult(Selected, 1)) && !callresult(Selected, 1)[k0].Indexed) ==> igHasCol(ig, "abi_idx") && igHasBD(ig, "abi_idx")
+//@   loop#0 invariant ig != nil && ig == pre(ig)
+//@   loop#0 invariant len((*ig).Table.Columns) >= old(len((*ig).Table.Columns)) && (forall k int :: 0 <= k && k < old(len((*ig).Table.Columns)) ==> colAt(ig, k) == old(colAt(ig, k)))
+//@   loop#0 invariant len((*ig).Block) >= old(len((*ig).Block)) && (forall k int :: 0 <= k && k < old(len((*ig).Block)) ==> bdAt(ig, k) == old(bdAt(ig, k)))
+//@   loop#0 invariant igHasCol(ig, "ig_name") && igHasCol(ig, "src_name") && igHasCol(ig, "block_num") && igHasCol(ig, "tx_idx") && igHasBD(ig, "ig_name") && igHasBD(ig, "src_name") && igHasBD(ig, "block_num") && igHasBD(ig, "tx_idx")
+//@   loop#0 invariant len(callresult(Selected, 0)) > 0 ==> igHasCol(ig, "log_idx") && igHasBD(ig, "log_idx")
+//@   loop#0 invariant len((*ig).Table.Columns) >= pre(len((*ig).Table.Columns)) && (forall k int :: 0 <= k && k < pre(len((*ig).Table.Columns)) ==> colAt(ig, k) == pre(colAt(ig, k)))
+//@   loop#0 invariant len((*ig).Block) >= pre(len((*ig).Block)) && (forall k int :: 0 <= k && k < pre(len((*ig).Block)) ==> bdAt(ig, k) == pre(bdAt(ig, k)))
+//@   loop#0 invariant (exists k0 int :: 0 <= k0 && k0 <= rangeindex && !callresult(Selected, 1)[k0].Indexed) ==> igHasCol(ig, "abi_idx") && igHasBD(ig, "abi_idx")
+//@   loop#1 invariant ig != nil && ig == pre(ig)
+//@   loop#1 invariant len((*ig).Table.Columns) >= old(len((*ig).Table.Columns)) && (forall k int :: 0 <= k && k < old(len((*ig).Table.Columns)) ==> colAt(ig, k) == old(colAt(ig, k)))
+//@   loop#1 invariant len((*ig).Block) >= old(len((*ig).Block)) && (forall k int :: 0 <= k && k < old(len((*ig).Block)) ==> bdAt(ig, k) == old(bdAt(ig, k)))
+//@   loop#1 invariant igHasCol(ig, "ig_name") && igHasCol(ig, "src_name") && igHasCol(ig, "block_num") && igHasCol(ig, "tx_idx") && igHasBD(ig, "ig_name") && igHasBD(ig, "src_name") && igHasBD(ig, "block_num") && igHasBD(ig, "tx_idx")
+//@   loop#1 invariant len(callresult(Selected, 0)) > 0 ==> igHasCol(ig, "log_idx") && igHasBD(ig, "log_idx")
+//@   loop#1 invariant (exists k0 int :: 0 <= k0 && k0 < len(callresult(Selected, 1)) && !callresult(Selected, 1)[k0].Indexed) ==> igHasCol(ig, "abi_idx") && igHasBD(ig, "abi_idx")
+//@   loop#1 invariant len((*ig).Table.Columns) >= pre(len((*ig).Table.Columns)) && (forall k int :: 0 <= k && k < pre(len((*ig).Table.Columns)) ==> colAt(ig, k) == pre(colAt(ig, k)))
+//@   loop#1 invariant len((*ig).Block) >= pre(len((*ig).Block)) && (forall k int :: 0 <= k && k < pre(len((*ig).Block)) ==> bdAt(ig, k) == pre(bdAt(ig, k)))
